@@ -159,7 +159,7 @@ Lemma vectors_is_rot3 px py ux uy uz lat f0 f1 roll pitch yaw :
   gen_vectors_x px py ux uy uz lat f0 f1 roll pitch yaw = gen_qrotate_x r2x r2y r2z nx ny nz yaw /\
   gen_vectors_y px py ux uy uz lat f0 f1 roll pitch yaw = gen_qrotate_y r2x r2y r2z nx ny nz yaw /\
   gen_vectors_z px py ux uy uz lat f0 f1 roll pitch yaw = gen_qrotate_z r2x r2y r2z nx ny nz yaw.
-Proof. cbv zeta. repeat split; reflexivity. Qed.
+Proof. cbv zeta. repeat split; variant_eq. Qed.
 
 Lemma rot2_is_rot px py ux uy uz lat f0 f1 roll pitch :
   let r1x := gen_vec_rot1_x px py ux uy uz lat f0 roll in
@@ -170,7 +170,7 @@ Lemma rot2_is_rot px py ux uy uz lat f0 f1 roll pitch :
   gen_vec_rot2_x px py ux uy uz lat f0 f1 roll pitch = gen_qrotate_x r1x r1y r1z yx yy yz (f1 + pitch) /\
   gen_vec_rot2_y px py ux uy uz lat f0 f1 roll pitch = gen_qrotate_y r1x r1y r1z yx yy yz (f1 + pitch) /\
   gen_vec_rot2_z px py ux uy uz lat f0 f1 roll pitch = gen_qrotate_z r1x r1y r1z yx yy yz (f1 + pitch).
-Proof. cbv zeta. repeat split; reflexivity. Qed.
+Proof. cbv zeta. repeat split; variant_eq. Qed.
 
 Lemma rot1_is_rot px py ux uy uz lat f0 roll :
   let nx := gen_vec_nadir_x px py lat in let ny := gen_vec_nadir_y px py lat in
@@ -180,7 +180,7 @@ Lemma rot1_is_rot px py ux uy uz lat f0 roll :
   gen_vec_rot1_x px py ux uy uz lat f0 roll = gen_qrotate_x nx ny nz xx xy xz (f0 + roll) /\
   gen_vec_rot1_y px py ux uy uz lat f0 roll = gen_qrotate_y nx ny nz xx xy xz (f0 + roll) /\
   gen_vec_rot1_z px py ux uy uz lat f0 roll = gen_qrotate_z nx ny nz xx xy xz (f0 + roll).
-Proof. cbv zeta. repeat split; reflexivity. Qed.
+Proof. cbv zeta. repeat split; variant_eq. Qed.
 
 (* nadir = subpoint(-pos) / |subpoint(-pos)| ; x axis = vel/|vel| ; y axis = (nadir x vel)/|nadir x vel| *)
 Lemma nadir_is_normalised_subpoint px py pz lat :
